@@ -131,6 +131,12 @@ def case_api(cls, params, rec):
 			mech="C02/input-mutated")
 		return
 	if st == "raise":
+		if fn == "shuffle" and params.get("seedkind") == "npint":
+			# only Python ints are documented seeds: refusing a numpy integer
+			# is in order, treating it as another seed is not
+			rec.refusal(cls, params, "numpy integer seed refused: " + repr(
+				val)[:120])
+			return
 		if fn == "shuffle":
 			rec.violation(cls, params, {"what": "shuffle raised on a valid "
 				"region", "error": repr(val)[:300]}, mech="C02/shuffle-raised")
